@@ -980,7 +980,7 @@ def run(ctx):
                 'option and never run.  A case is the real call under recording wrappers; it is non-trivial when '
                 'all five stage calls (get_next_imf, interp_envelope upper/lower, get_padded_extrema peaks/troughs) were recorded and, for '
                 'the pooled variants, at least one of them inside a worker process.' % N)
-    ctx.proof(extra=['props/Prop_Tie_Options.v'])  # translation tie: program regenerated from the source + refinement theorems
+    ctx.proof(extra=['props/Prop_Tie_Options.v', 'props/Prop_Tie_Parab.v'])  # translation tie: program regenerated from the source + refinement theorems
     cases, grid = make_cases(ctx)
     ctx.extra['grid'] = grid
     # model: one evaluation per (variant, route, options) - nprocesses and the signal are not inputs of the plumbing
